@@ -684,7 +684,12 @@ def run(root, cfg, log, repo="/repo"):
     gen = os.path.join(root, "lean", "A2lVerif", "Gen")
     write_if_changed(os.path.join(gen, "Symbols.lean"),
                      "/-! GENERATED by tools/translate.py — do not edit. -/\nnamespace A2l.G\n\ndef symbols : Array String := #[\n  "
-                     + ",\n  ".join(json.dumps(n) for n in sym.names) + "]\n\nend A2l.G\n")
+                     + ",\n  ".join(json.dumps(n) for n in sym.names) + "]\n\n"
+                     + "/-- symbols the hand-written code refers to by name -/\n"
+                     + f"def symA2lFile : Nat := {sym.ix.get('A2lFile', 999999)}\n"
+                     + f"def symAsap2Version : Nat := {sym.ix.get('Asap2Version', 999999)}\n"
+                     + f"def symTagAsap2Version : Nat := {sym.ix.get('ASAP2_VERSION', 999999)}\n"
+                     + "\nend A2l.G\n")
     emit_table(os.path.join(gen, "Shipped.lean"), "Shipped", shipped, sym, True)
     emit_table(os.path.join(gen, "Fresh.lean"), "Fresh", fresh, sym, True)
     emit_table(os.path.join(gen, "Reference.lean"), "Reference", grammar_view(ref), sym, False)
